@@ -79,7 +79,7 @@ func gen(seed, idx int64) set {
 	// to every reader. And one set in seven imports, by revision-date, a module that is nowhere
 	// to be found, under a name of its own: the error names that module and no other set's.
 	s.Names = append(s.Names, "zzdefs.yang")
-	s.Texts = append(s.Texts, "module zzdefs {\n  namespace \"urn:zzdefs\";\n  prefix zd;\n  leaf-list ll { type string; default a; default a; default b; }\n  container c { leaf-list mm { type string; default x; default y; default y; default y; default z; default z; } }\n  leaf mn { type int8 { range \"min..10\"; } }\n  leaf mx { type uint64 { range \"5..max\"; } }\n  leaf ml { type string { length \"1..max\"; } }\n  leaf mb { type binary { length \"min..4 | 8..max\"; } }\n  leaf md { type decimal64 { fraction-digits 3; range \"min..0 | 1.5..max\"; } }\n  leaf mi { type int64 { range \"min..max\"; } }\n}\n")
+	s.Texts = append(s.Texts, "module zzdefs {\n  namespace \"urn:zzdefs\";\n  prefix zd;\n  leaf-list ll { type string; default a; default a; default b; }\n  container c { leaf-list mm { type string; default x; default y; default y; default y; default z; default z; } }\n  leaf mn { type int8 { range \"min..10\"; } }\n  leaf mx { type uint64 { range \"5..max\"; } }\n  leaf ml { type string { length \"1..max\"; } }\n  leaf mb { type binary { length \"min..4 | 8..max\"; } }\n  leaf md { type decimal64 { fraction-digits 3; range \"min..0 | 1.5..max\"; } }\n  leaf mi { type int64 { range \"min..max\"; } }\n  typedef zzp { type string { pattern \"[a-z]+\"; } }\n  leaf p1 { type zzp { pattern \"[0-9a-z]*\"; pattern \"x1\"; } }\n  leaf p2 { type string { pattern \"[0-9a-z]*\"; pattern \"[a-z]+\"; } }\n  leaf p3 { type zzp; }\n  leaf-list p4 { type zzp { pattern \"x1\"; pattern \"y2\"; pattern \"[a-z]+\"; } }\n}\n")
 	if idx%7 == 5 {
 		s.Names = append(s.Names, fmt.Sprintf("zzmiss%d.yang", idx))
 		s.Texts = append(s.Texts, fmt.Sprintf("module zzmiss%d {\n  namespace \"urn:zzmiss%d\";\n  prefix zx;\n  import absent%d { prefix ab; revision-date 2020-01-01; }\n  leaf l { type string; }\n}\n", idx, idx, idx))
